@@ -669,3 +669,22 @@ def _frame(spec, table, kw):
 
 def clone(frame):
     return frame.clone() if hasattr(frame, "clone") else frame.copy(deep=True)
+
+
+def warm_up():
+    """Register the pandas and polars backends (and with them every built-in
+    check implementation) before any schema of a case is built.  pandera
+    registers them lazily on the first validate; Check.__eq__ compares the
+    byte code of all implementations registered in a check's dispatcher, so a
+    schema copied before and one copied after the registration compare unequal.
+    That timing effect is not what C05 / C15 are about."""
+    import pandas as pd
+    import pandera as pa
+    import pandera.io  # noqa: F401
+    import pandera.polars as pap
+    import polars as pl
+    pa.DataFrameSchema({"a": pa.Column(int, pa.Check.gt(0))},
+                       index=pa.Index(int)).validate(pd.DataFrame({"a": [1]}))
+    pa.SeriesSchema(int, pa.Check.gt(0)).validate(pd.Series([1]))
+    pap.DataFrameSchema({"a": pap.Column(int, pap.Check.gt(0))}).validate(
+        pl.DataFrame({"a": [1]}))
